@@ -59,6 +59,10 @@ func idOf(b []byte) string {
 }
 func (g *gateAppender) Append(e *log.Event) { g.pass("e" + idOf(g.layout.ToBytes(e))) }
 func (g *gateAppender) Write(b []byte) {
+	if len(b) == 0 {
+		g.pass("z")
+		return
+	}
 	if len(b) > 0 && b[0] == '{' { // an event formatted by the logger's own layout
 		g.pass("e" + idOf(b))
 		return
@@ -91,15 +95,23 @@ func parsePolicy(s string) log.BufferFullPolicy {
 // the logger's own range has a lower AND an upper bound: events below (kind d) and at or above it (kind u) are not enabled
 var allLevels = log.LevelRange{MinLevel: log.InfoLevel, MaxLevel: log.PanicLevel}
 
-// A policy written "<policy>+L" gives the logger its own layout and the appender reference the range [INFO, MAX): the worker
-// then formats the event itself and hands bytes to the reference's level filter (the other delivery path of the worker).
+// Policy suffixes: "+L" gives the logger its own layout and the appender reference the range [INFO, MAX) (the worker then
+// formats the event itself and hands bytes to the reference's level filter); "+U" gives the logger's own range an upper bound,
+// [INFO, PANIC): events at PANIC/FATAL are then not enabled (kind u), otherwise they are ordinary enabled events.
+var c04UpperBounded sync.Map
+
 func newAsync(cap int, pol string, g log.Appender) *log.AsyncLogger {
-	pol, withLayout := strings.CutSuffix(pol, "+L")
+	base, _, _ := strings.Cut(pol, "+")
+	withLayout, ub := strings.Contains(pol, "+L"), strings.Contains(pol, "+U")
 	l := &log.AsyncLogger{
-		LoggerBase:       log.LoggerBase{Name: "lg", Level: allLevels},
+		LoggerBase:       log.LoggerBase{Name: "lg", Level: log.LevelRange{MinLevel: log.InfoLevel, MaxLevel: log.MaxLevel}},
 		AppenderRefs:     log.AppenderRefs{AppenderRefs: []*log.AppenderRef{{Appender: g, Level: log.LevelRange{MinLevel: log.NoneLevel, MaxLevel: log.MaxLevel}}}},
 		BufferSize:       cap,
-		BufferFullPolicy: parsePolicy(pol),
+		BufferFullPolicy: parsePolicy(base),
+	}
+	if ub {
+		l.Level = allLevels
+		c04UpperBounded.Store(l, true)
 	}
 	if withLayout {
 		l.Layout = &log.JSONLayout{}
@@ -110,9 +122,23 @@ func newAsync(cap int, pol string, g log.Appender) *log.AsyncLogger {
 
 func submitTo(l log.Logger, kind byte, id string) {
 	switch kind {
+	case 'z': // a zero-length raw write (nil and empty alternate): one delivery like any other
+		if len(id)%2 == 0 {
+			l.Write(nil)
+		} else {
+			l.Write([]byte{})
+		}
 	case 'e':
 		e := log.GetEvent()
-		e.Level = log.InfoLevel
+		levels := []log.Level{log.InfoLevel, log.WarnLevel, log.ErrorLevel, log.PanicLevel, log.FatalLevel}
+		if _, ub := c04UpperBounded.Load(l); ub {
+			levels = levels[:3]
+		}
+		h := 0
+		for i := 0; i < len(id); i++ {
+			h = h*31 + int(id[i])
+		}
+		e.Level = levels[h%len(levels)] // every enabled level, the highest ones included
 		e.Fields = []log.Field{log.Msg("<id:" + id + ">")}
 		l.Append(e)
 	case 'd': // disabled level: below the logger's range
@@ -201,7 +227,11 @@ func runC04Case(line string) string {
 				done := make(chan struct{})
 				full := l.VerifBufLen() >= cap
 				go func() { l.Stop(); close(done) }()
-				if full { // let Stop reach its (blocking) send of the marker while the worker is still parked
+				if holding { // the worker is parked mid-append with an accepted item: Stop must not return before that item is delivered
+					if waitSignal(done, 60*time.Millisecond) {
+						fail = "stop-returned-while-an-accepted-item-was-still-being-delivered"
+					}
+				} else if full { // let Stop reach its (blocking) send of the marker while the worker is still parked
 					time.Sleep(40 * time.Millisecond)
 				}
 				g.open.Store(true)
@@ -283,7 +313,10 @@ func runC04Concurrent(cases []string, out *bufio.Writer, _ []string) {
 						kind = 'w'
 					}
 					if disEvery > 0 && n%disEvery == disEvery-1 {
-						kind = []byte{'d', 'u'}[(n/disEvery)%2]
+						kind = 'd'
+						if strings.Contains(f[1], "+U") && (n/disEvery)%2 == 1 {
+							kind = 'u'
+						}
 					}
 					submitTo(l, kind, fmt.Sprintf("%d.%d", p, n))
 				}
